@@ -157,6 +157,15 @@ def is_report(m):
     return m.get("message_type") == REPORT
 
 
+def is_own(m):
+    """Some other message eliot logs on its own account (a notice, whatever a later version adds): it reaches the
+    output stage like any message -- offered to every destination, its failures reported -- but it is not one of
+    the program's emissions."""
+    mt = m.get("message_type")
+    return isinstance(mt, str) and mt.startswith("eliot:") and mt != REPORT and "action_status" not in m \
+        and mt not in ("eliot:traceback", "eliot:serialization_failure") and m.get("nid") is None
+
+
 _CANON = {}
 
 
@@ -181,7 +190,7 @@ def oracle_seq(rc):
                if isinstance(lab, tuple) and lab[0] in ("start", "end", "msg", "tb")]
     # (a re-delivered buffered message is offered during the add call; it is recognised by its content)
     got = [("msg", r.msg["nid"]) if r.msg.get("message_type") == "c08:pre" else r.call[1]
-           for r in S if not is_report(r.msg)]
+           for r in S if not is_report(r.msg) and not is_own(r.msg)]
     if got != emitted:
         n = min(len(got), len(emitted))
         i = next((k for k in range(n) if got[k] != emitted[k]), n)
@@ -255,7 +264,7 @@ def oracle_threads(rc):
     # every message the program's calls emitted has been offered by the time all threads are done
     emitted = [lab for (_seq, _cid, lab) in rc.returns
                if isinstance(lab, tuple) and lab[0] in ("start", "end", "msg", "tb")]
-    n_got = sum(1 for r in S if not is_report(r.msg))
+    n_got = sum(1 for r in S if not is_report(r.msg) and not is_own(r.msg))
     if n_got != len(emitted):
         raise Violation(("emission_mismatch", {"dir": "fewer" if n_got < len(emitted) else "more"}),
                         "reference destination was offered %d non-report messages, the threads' logging calls "
